@@ -487,6 +487,9 @@ fn check_sprite(tape: &[u32]) -> CheckResult {
             }
         }
     }
+    if f.slices().len() != s.slices.len() {
+        return Err(Failure::new("slice-count", format!("{} slices reported, {} slice chunks in the file", f.slices().len(), s.slices.len())).with(detail()));
+    }
     for (i, sl) in s.slices.iter().enumerate() {
         let got = ud(f.slices()[i].user_data.as_ref());
         if got != m(&sl.user_data) {
